@@ -122,8 +122,8 @@ def make_packages(ctx):
             # declare embedded types first, so that `-file=` processes them before their embedders (well-formed for -getset)
             pk = detgen.build_new_pkg(pk["listed"], pk["flags"], pk["star"], render=detgen.deps_first_order(pk["listed"]))
         pks.append(pk)
-    for _ in range(n_map):
-        pks.append(detgen.gen_map_pkg(rng))
+    for k in range(n_map):
+        pks.append(detgen.gen_map_rich_pkg(rng) if k % 2 else detgen.gen_map_pkg(rng))
     for _ in range(n_enum):
         pks.append(detgen.gen_enum_pkg(rng))
     for _ in range(n_rest):
@@ -153,7 +153,7 @@ class Dir:
             p = os.path.join(self.path, rel)
             os.makedirs(os.path.dirname(p), exist_ok=True)
             with open(p, "w") as f:
-                f.write(content)
+                f.write(content.replace("@DEST@", "%s/c/dest" % pkgrun.MOD))
 
     def shoot(self, args, cwd=None):
         p = core.run([self.ctx.shoot()] + args, cwd=cwd or self.cwd, timeout=120)
